@@ -35,3 +35,9 @@ add("C09", "exploration", "shadow-registry invariant checked after every event o
 add("C19", "exploration", "parse-back oracle on stored and handed-out node URIs over a source-address x override grid",
     "Every (endpoint, source address class, override class): accepted registrations must parse back (ethnode.ParseNodeURI + net.SplitHostPort) to the authenticated id, supplied-or-source host and supplied-or-30303 port; undeterminable addresses refused.",
     "Exotic overrides only need to keep the id binding and not crash.")
+add("C14", "exploration", "token-echo monitor over a PRNG reordering network between two real Remotes (history oracle: own reply, exactly-once handling, context-service identity, cancellation with withheld reply)",
+    "Concurrent callers on both ends with unique tokens over a network that reorders deliveries and withholds replies; nested call-backs; cancellations issued while the reply is provably withheld; also net.Pipe and loopback TCP; pending-table size observed through the verif hook.",
+    "Sampled delivery orders (counted in evidence); stall detection is logical progress; PendingLimit configurations stay below the limit.")
+add("C17", "exploration", "written-vs-read sequence comparison through byte-chunking transports under every codec; concurrent-writer integrity check",
+    "Message sequences through IOCodec, HTTP, gorilla and gobwas codecs with the byte stream delivered as 1-byte reads, small/random pieces, fully coalesced or with pauses (chunking conn installed below the WebSocket layer); concurrent writers on TCP and gorilla.",
+    "Chunking is injected on the reader side of loopback TCP / in-memory streams; write-side segmentation is whatever the kernel does.")
